@@ -269,7 +269,34 @@ pub fn readcmp_main(a: &Args) {
                         _ => None,
                     }
                 };
-                let whole_blank = as_text(&m.actual).map(|t| t.is_empty()).unwrap_or(false) && as_text(&m.expected).map(|t| !t.is_empty() && t.chars().all(|c| c.is_whitespace())).unwrap_or(false);
+                // "all blanks in, empty out", wherever the text sits inside the value (a plain string, the uri of a Content,
+                // the family or cached face of a Font): the two values have the same shape and differ only in string leaves
+                // that are blank on the expected side and empty on the decoded side
+                fn blank_to_empty_only(e: &J, a: &J, seen: &mut bool) -> bool {
+                    match (e, a) {
+                        (J::String(x), J::String(y)) => {
+                            if x == y {
+                                true
+                            } else if y.is_empty() && !x.is_empty() && x.chars().all(|c| c.is_whitespace()) {
+                                *seen = true;
+                                true
+                            } else {
+                                false
+                            }
+                        }
+                        (J::Array(x), J::Array(y)) => x.len() == y.len() && x.iter().zip(y).all(|(p, q)| blank_to_empty_only(p, q, seen)),
+                        (J::Object(x), J::Object(y)) => x.len() == y.len() && x.iter().all(|(k, p)| y.get(k).map(|q| blank_to_empty_only(p, q, seen)).unwrap_or(false)),
+                        (p, q) => p == q,
+                    }
+                }
+                let whole_blank_nested = match (serde_json::from_str::<J>(&m.expected), serde_json::from_str::<J>(&m.actual)) {
+                    (Ok(e), Ok(a)) => {
+                        let mut seen = false;
+                        blank_to_empty_only(&e, &a, &mut seen) && seen
+                    }
+                    _ => false,
+                };
+                let whole_blank = whole_blank_nested || (as_text(&m.actual).map(|t| t.is_empty()).unwrap_or(false) && as_text(&m.expected).map(|t| !t.is_empty() && t.chars().all(|c| c.is_whitespace())).unwrap_or(false));
                 let may_be_known = !has_tag("fixed-document") && (pieces_possible || whole_blank);
                 let folded_res = if fmt == "xml" && may_be_known { Some(canon::with_nan_class(nan, || expect::compare(&folded, &dump_folded, false))) } else { None };
                 if let Some(Some(soft)) = &folded_res {
